@@ -62,11 +62,28 @@ theorem inv_bool (b : Bool) : (V.bool b).Inv := by simp [V.Inv]
 
 /-! ### what the engine writes in Html mode is clean -/
 
+theorem inv_bytes (bs : List Nat) : (V.bytes bs).Inv := by simp [V.Inv]
+theorem inv_obj (t : TStr) : (V.obj t).Inv := by simp [V.Inv]
+
+/-- whatever the kind of the value: in Html mode the escaping dispatch writes no metacharacter
+    (strings and bytes through the escaper, containers and objects through the escaper applied to
+    their text, numbers / booleans / none / undefined have no metacharacter in their text) -/
 theorem writeHtml_noMeta_nonstr (v : V) : NoMeta (writeHtml v) := by
   cases v with
   | str s safe => exact escapeStr_noMeta s
   | seq xs => exact htmlEscape_noMeta _
   | map kvs => exact htmlEscape_noMeta _
+  | bytes bs =>
+    simp only [writeHtml]
+    split
+    · exact escapeStr_noMeta _
+    · exact htmlEscape_noMeta _
+  | float cs =>
+    apply ofDataL_noMeta
+    intro c hc
+    have := (List.mem_filter.mp hc).2
+    cases h : isMeta c <;> simp [h] at this ⊢
+  | obj t => exact htmlEscape_noMeta _
   | int n => exact ofDataL_noMeta (intChars_noMeta n)
   | bool b =>
     cases b
@@ -134,6 +151,9 @@ theorem inv_iff_leaves : ∀ v : V, v.Inv ↔ ∀ l ∈ v.safeLeaves, Clean l
   | .bool _ => by simp [V.Inv, V.safeLeaves]
   | .none => by simp [V.Inv, V.safeLeaves]
   | .undef => by simp [V.Inv, V.safeLeaves]
+  | .bytes _ => by simp [V.Inv, V.safeLeaves]
+  | .float _ => by simp [V.Inv, V.safeLeaves]
+  | .obj _ => by simp [V.Inv, V.safeLeaves]
   | .seq xs => by simp only [V.Inv, V.safeLeaves]; exact invL_iff_leaves xs
   | .map kvs => by simp only [V.Inv, V.safeLeaves]; exact invM_iff_leaves kvs
 theorem invM_iff_leaves : ∀ kvs : List (String × V), V.InvM kvs ↔ ∀ l ∈ V.safeLeavesM kvs, Clean l
@@ -186,6 +206,9 @@ theorem safeLeaves_iff : ∀ (v : V) (l : TStr), l ∈ v.safeLeaves ↔ (l, true
   | .bool _, l => by simp [V.safeLeaves, V.strLeaves]
   | .none, l => by simp [V.safeLeaves, V.strLeaves]
   | .undef, l => by simp [V.safeLeaves, V.strLeaves]
+  | .bytes _, l => by simp [V.safeLeaves, V.strLeaves]
+  | .float _, l => by simp [V.safeLeaves, V.strLeaves]
+  | .obj _, l => by simp [V.safeLeaves, V.strLeaves]
   | .seq xs, l => by simp only [V.safeLeaves, V.strLeaves]; exact safeLeavesL_iff xs l
   | .map kvs, l => by simp only [V.safeLeaves, V.strLeaves]; exact safeLeavesM_iff kvs l
 theorem safeLeavesL_iff : ∀ (xs : List V) (l : TStr), l ∈ V.safeLeavesL xs ↔ (l, true) ∈ V.strLeavesL xs
@@ -256,6 +279,7 @@ theorem sliceF_inv (a b : Nat) : InvPreserving (sliceF a b) := by
     cases hr
     have := inv_seq.mp (hargs (.seq xs) (by simp))
     exact inv_seq.mpr fun x hx => this x (List.mem_of_mem_drop (List.mem_of_mem_take hx))
+  · cases hr; exact inv_bytes _
   · cases hr; exact inv_seq.mpr (by intro x hx; cases hx)
   · cases hr; exact inv_seq.mpr (by intro x hx; cases hx)
   · cases hr
@@ -668,6 +692,7 @@ theorem reverseF_inv : InvPreserving reverseF := by
     cases hr
     have := inv_seq.mp (hargs (.seq xs) (by simp))
     exact inv_seq.mpr fun x hx => this x (List.mem_reverse.mp hx)
+  · cases hr; exact inv_bytes _
   · cases hr; exact inv_undef
   · cases hr; exact inv_none
   · cases hr
@@ -908,6 +933,9 @@ theorem fmtValue_clean {sp : Spec} {v : V} {t : TStr} (hv : FmtOK v) (h : fmtVal
   | undef => exact fmtStr_clean hv h
   | seq xs => exact fmtStr_clean hv h
   | map kvs => exact fmtStr_clean hv h
+  | bytes bs => exact fmtStr_clean hv h
+  | float cs => exact fmtStr_clean hv h
+  | obj t => exact fmtStr_clean hv h
 
 theorem mem_dropFlag {s : TStr} {ch : TChar} (h : ch ∈ (dropFlag s).2) : ch ∈ s := by
   unfold dropFlag at h
@@ -1020,6 +1048,9 @@ theorem formatF_inv : InvPreserving (formatF .html) := by
           | undef => simp [isSafeV, isScalar] at hsc
           | seq xs => simp [isSafeV, isScalar] at hsc
           | map kvs => simp [isSafeV, isScalar] at hsc
+          | bytes bs => simp [isSafeV, isScalar] at hsc
+          | float cs => simp [isSafeV, isScalar] at hsc
+          | obj t => simp [isSafeV, isScalar] at hsc
         · cases h
           exact (escapeWrite_html_noMeta _).clean
     · simp only [Option.map_eq_some_iff] at hr
